@@ -807,8 +807,19 @@ class BaseRepo:
             graph_walker.update_shallow = lambda new_shallow, unshallow: (
                 shallow_updates.append((new_shallow, unshallow))
             )
+        # Report the refs the wants were chosen from: reading them again after
+        # the transfer may name a tip that moved meanwhile and was not sent.
+        refs_seen: list[dict[Ref, ObjectID]] = []
+        wanted = determine_wants
+
+        def determine_wants_recording(
+            refs: Mapping[Ref, ObjectID], depth: int | None = None
+        ) -> list[ObjectID]:
+            refs_seen.append(dict(refs))
+            return wanted(refs, depth)
+
         count, pack_data = self.fetch_pack_data(
-            determine_wants,
+            determine_wants_recording,
             graph_walker,
             progress=progress,
             depth=depth,
@@ -816,7 +827,7 @@ class BaseRepo:
         target.object_store.add_pack_data(count, pack_data, progress)
         for new_shallow, unshallow in shallow_updates:
             target.update_shallow(new_shallow, unshallow)
-        return self.get_refs()
+        return refs_seen[-1] if refs_seen else self.get_refs()
 
     def fetch_pack_data(
         self,
